@@ -440,12 +440,14 @@ fn run(tier: Tier, shard: usize, nshards: usize, _seed: u64) -> Partial {
             continue;
         }
         // how many admissible crash sets? then one world per set
-        let (_, base) = scenario(c, Chooser::default_run(), false, None, false);
-        record(c, None, &[], &base, &mut out);
-        for ci in 0..base.crash_sets {
-            let (_, o) = scenario(c, Chooser::default_run(), false, Some(ci), ci == 0 && i % 5 == 0);
-            record(c, Some(ci), &[], &o, &mut out);
-        }
+        super::guard_dead_actor(&mut out, &format!("s{}c{}/{}", c.s, c.c, KINDS[c.kind]), json!({"cfg": cfg_json(c), "crash": null, "choices": []}), |out| {
+            let (_, base) = scenario(c, Chooser::default_run(), false, None, false);
+            record(c, None, &[], &base, out);
+            for ci in 0..base.crash_sets {
+                let (_, o) = scenario(c, Chooser::default_run(), false, Some(ci), ci == 0 && i % 5 == 0);
+                record(c, Some(ci), &[], &o, out);
+            }
+        });
     }
     {
         // a network large enough that a get answer lists 15+ closer nodes next to the value
